@@ -192,6 +192,7 @@ func init() {
 			"attachment.(*baseStreamDataHandle).GetDataOffsetAndLen", "attachment.(*baseStreamDataHandle).GetFileName",
 			"attachment.(*heiBiaoStreamDataHandle).HasMinHeadLen", "attachment.(*heiBiaoStreamDataHandle).Parse",
 			"attachment.(*Package).StatisticalMissSegments!safety", "attachment.(*standardJT808DataHandle).OnPackageProgressEvent!safety",
+			"attachment.(*standardJT808DataHandle).Parse",
 			"attachment.(*fileEvent).OnEvent",
 			"model.(*T0x1210).Parse", "model.(*T0x1211).Parse", "model.(*T0x1212).Parse", "model.(*T0x1212).ReplyBody", "model.(*P0x9212).Encode",
 		},
@@ -202,7 +203,7 @@ func init() {
 			"A panic in any of these would end the whole process, because connection goroutines have no recover. Message-body parsers called by handlers are covered by C03",
 		Undecided: []string{
 			"goroutine/channel code: connection.reader/write/stop, sessionManager, attachment connection.run (accept loops, close/reset timing, effects on other sessions)",
-			"functions that dispatch through interfaces or generics: PackageProgress.iter/stageStreamData/stageJT808Data, BaseJT808DataHandler.Parse/ReplyData, connection.defaultReplyEvent, Message.Parse",
+			"functions that dispatch through interfaces or call function values: PackageProgress.iter/stageStreamData/stageJT808Data, BaseJT808DataHandler.ReplyData (its precondition, the first frame's header being kept, is established by the verified handler Parse), connection.defaultReplyEvent, Message.Parse",
 			"the preconditions assumed of call sites outside the verified set: OnEvent's (a message is present in non-final stages, CurrentPackage is set in chunk stages, records are non-nil), the chunk parsers' minimum length, the handler's non-nil message objects",
 			"packageParse.parse as a composition (its callees are verified one by one)",
 		},
